@@ -36,5 +36,9 @@ Models == UNION {[1..n -> Entries] : n \in 1..MaxEntries}
 Vec(es, lead, gap, final) ==
     LET r == RenderChangelog(es, lead, gap, final) IN
     [k |-> "cl", entries |-> es, lead |-> lead, gap |-> gap, final |-> final, bytes |-> r.bytes, ends |-> r.ends]
-ASSUME Emit(SetToSeq({Vec(es, lead, gap, final) : es \in Models, lead \in {0, 1}, gap \in {1, 2}, final \in BOOLEAN}))
+\* every sign x hour x minute combination of the zone (half- and quarter-hour zones, west and east of Greenwich)
+ZoneEntries == {E(hello, <<49>>, <<unstable>>, << <<urgency, low>> >>, Body3, m1, D(1, 2, 1, 2006, 15, 4, 5, zn, zh, zm)) :
+                   zn \in BOOLEAN, zh \in {0, 3, 9, 12}, zm \in {0, 30, 45}}
+ASSUME Emit(SetToSeq({Vec(es, lead, gap, final) : es \in Models, lead \in {0, 1}, gap \in {1, 2}, final \in BOOLEAN})
+            \o SetToSeq({Vec(<<e>>, 0, 1, TRUE) : e \in ZoneEntries}))
 =============================================================================
